@@ -797,7 +797,10 @@ func (e *Engine) checkCallAsserts(fc *fnCtx, st *State, c *ssa.CallCommon, instr
 	for _, cl := range fc.contract.Asserts[key] {
 		env := e.callSiteEnv(fc, st)
 		env.curBlock = instr.Block()
-		f := e.trSpec(env, cl.E).T
+		f, okc := e.clauseTerm(env, cl)
+		if !okc {
+			continue
+		}
 		e.addObl(fc.fn, "assert", "["+key+"] "+cl.Text, pos, st.Reach, f)
 	}
 }
@@ -814,7 +817,10 @@ func (e *Engine) applyAssumes(fc *fnCtx, st *State, cls []Clause, key string, v 
 		}
 	}
 	for _, cl := range cls {
-		f := e.trSpec(env, cl.E).T
+		f, okc := e.clauseTerm(env, cl)
+		if !okc {
+			continue
+		}
 		e.assume(st, f)
 		e.w.Trusted["call-site assumption: "+fc.fn.Name()+" ["+key+"] "+cl.Text] = true
 	}
@@ -822,6 +828,11 @@ func (e *Engine) applyAssumes(fc *fnCtx, st *State, cls []Clause, key string, v 
 
 // applyPreserves: trusted frame annotation of the caller - the listed locations have the same content after the call.
 func (e *Engine) applyPreserves(fc *fnCtx, pre, post *State, ds []SExpr, key string) {
+	if e.droppedClause["preserves["+key+"]"] {
+		return
+	}
+	var dummy string
+	defer e.recoverClause("preserves["+key+"]", &dummy)
 	env := fc.env.with(pre)
 	env.fc = fc
 	env.vars = map[string]Val{}
